@@ -28,6 +28,7 @@ type frame struct {
 	results []T
 	rangeIt map[ssa.Value]*rangeRec
 	parent  *frame
+	loopDefers bool
 	activeAtCall []string
 }
 
@@ -44,6 +45,7 @@ type loopInfo struct {
 	ord    int               // 1-based ordinal in head-index order
 	key    string
 	headSt *State // state after havoc+invariants (for debugging)
+	lockEntry map[string]T
 }
 
 type rangeRec struct {
@@ -288,7 +290,32 @@ func (fr *frame) loopHead(li *loopInfo, st *State, entryPhis map[*ssa.Phi]T) {
 				names = append(names, n)
 			}
 			sort.Strings(names)
+			written := c.loopWrites[li.key]
+			for _, pr := range [][2]string{{HLockW, HDefW}, {HLockR, HDefR}} {
+				if !written[pr[0]] && !written[pr[1]] {
+					continue
+				}
+				if li.lockEntry == nil {
+					li.lockEntry = map[string]T{}
+				}
+				if !written[pr[1]] {
+					// automatic invariant: every iteration is lock-balanced
+					li.lockEntry[pr[0]] = c.getHeap(st, pr[0])
+					continue
+				}
+				// deferred unlocks in the loop: invariant on held - deferred
+				c.R.Heap(pr[0], ArraySort("Ref", "Int"))
+				el, ed := c.getHeap(st, pr[0]), c.getHeap(st, pr[1])
+				li.lockEntry["net:"+pr[0]] = el
+				li.lockEntry["net:"+pr[1]] = ed
+				c.havocHeap(st, pr[0])
+				c.havocHeap(st, pr[1])
+				c.assume(st, netLockInv(c.getHeap(st, pr[0]), c.getHeap(st, pr[1]), el, ed))
+			}
 			for _, n := range names {
+				if n == HLockW || n == HLockR || n == HDefW || n == HDefR {
+					continue
+				}
 				if n == HAlloc {
 					old := c.getHeap(st, n)
 					c.havocHeap(st, n)
@@ -404,6 +431,17 @@ func (fr *frame) backEdge(li *loopInfo, pred *ssa.BasicBlock) {
 		}
 		c.oblige(st, "inv-preserved", fmt.Sprintf("loop %d: %s", li.ord, inv.Text), t, pred.Instrs[len(pred.Instrs)-1].Pos())
 	}
+	for _, pr := range [][2]string{{HLockW, HDefW}, {HLockR, HDefR}} {
+		if el, ok := li.lockEntry["net:"+pr[0]]; ok {
+			c.oblige(st, "lock-balance-loop", fmt.Sprintf("loop %d: %s - %s", li.ord, pr[0], pr[1]),
+				netLockInv(c.getHeap(st, pr[0]), c.getHeap(st, pr[1]), el, li.lockEntry["net:"+pr[1]]), pred.Instrs[len(pred.Instrs)-1].Pos())
+		}
+	}
+	for _, h := range []string{HLockW, HLockR} {
+		if e, ok := li.lockEntry[h]; ok {
+			c.oblige(st, "lock-balance-loop", fmt.Sprintf("loop %d: %s", li.ord, h), Eq(c.getHeap(st, h), e), pred.Instrs[len(pred.Instrs)-1].Pos())
+		}
+	}
 	if !c.scan {
 		for _, fc := range c.topFrameConds(st) {
 			c.oblige(st, "frame-inv", fmt.Sprintf("loop %d: %s", li.ord, fc.name), fc.cond, pred.Instrs[len(pred.Instrs)-1].Pos())
@@ -490,4 +528,11 @@ func (fr *frame) val(v ssa.Value) T {
 	t := c.R.Zero(v.Type())
 	fr.vals[v] = t
 	return t
+}
+
+// netLockInv: for every mutex, held minus deferred-unlocks is what it was at
+// loop entry, and deferred unlocks only grow.
+func netLockInv(lk, df, el, ed T) T {
+	return T{fmt.Sprintf("(forall ((m Ref)) (! (and (= (- (select %s m) (select %s m)) (- (select %s m) (select %s m))) (>= (select %s m) (select %s m))) :pattern ((select %s m)) :pattern ((select %s m))))",
+		lk.S, df.S, el.S, ed.S, df.S, ed.S, lk.S, df.S), "Bool"}
 }
